@@ -18,6 +18,7 @@
 #include <yaclib/coro/future.hpp>
 #include <yaclib/coro/task.hpp>
 #include <yaclib/exe/executor.hpp>
+#include <yaclib/exe/inline.hpp>
 #include <yaclib/lazy/make.hpp>
 #include <yaclib/lazy/schedule.hpp>
 #include <yaclib/util/detail/intrusive_list.hpp>
@@ -95,10 +96,11 @@ struct Ev {
   int id, ctx;
 };
 
-enum Source { kReadyValue, kReadyError, kReadyException, kRun, kLateValue, kLateError, kLateException, kMakeTask, kSchedule, kSourceN };
+enum Source { kReadyValue, kReadyError, kReadyException, kRun, kLateValue, kLateError, kLateException, kRunStopped, kMakeTask, kSchedule, kScheduleStopped, kSourceN };
 const char* const kSourceName[] = {"MakeFuture(value)", "MakeFuture(error)", "MakeFuture(exception)", "Run(e)",
                                    "contract set after building (value)", "contract set after (error)",
-                                   "contract set after (exception)", "MakeTask(value)", "Schedule(e)"};
+                                   "contract set after (exception)", "Run(stopped Inline)", "MakeTask(value)", "Schedule(e)",
+                                   "Schedule(stopped Inline)"};
 enum Start { kToFuture, kToFutureOn, kGet, kDetach, kDetachOn, kInnerTask, kCoAwait, kAwait, kStartN };
 const char* const kStartName[] = {"ToFuture()", "ToFuture(e)", "Get()", "Detach()+sink", "Detach(e)+sink",
                                   "returned from a continuation", "co_await", "Await(task)"};
@@ -563,7 +565,7 @@ void RunModel(const Params& p, Outcome& o) {
   const int se = p.se;
   m.constructs = 1;
   // lazy sources: the head runs when started; which executor the head is submitted to depends on the start mode
-  int head_exec = p.source == kSchedule ? se + 1 : 0;
+  int head_exec = p.source == kSchedule ? se + 1 : p.source == kScheduleStopped ? -1 : 0;
   if (lazy && !p.abandon && (p.start == kToFutureOn || p.start == kDetachOn)) {
     head_exec = p.start_exec + 1;
   }
@@ -590,6 +592,11 @@ void RunModel(const Params& p, Outcome& o) {
         cur = {2, 0, -1};
       }
       break;
+    case kRunStopped:
+      exec = -1;  // the library's stopped Inline executor: refuses everything, inherited by Then()
+      has_on = true;
+      cur = {2, 0, -1};
+      break;
     default:
       has_on = true;
       if (p.abandon) {
@@ -611,6 +618,8 @@ void RunModel(const Params& p, Outcome& o) {
     }
     if (head_exec == 0) {
       cur = {0, 1, 0};
+    } else if (head_exec == -1) {
+      cur = {2, 0, -1};
     } else if (m.Submit(head_exec - 1)) {
       cur = {0, 1, 0};
       ctx = head_exec;
@@ -708,8 +717,14 @@ void RunReal(const Params& p, Outcome& o, int source_override = -1) {
         Extend(std::move(f), c);
         break;
       }
+      case kRunStopped:
+        Extend(yaclib::Run<TErr>(yaclib::MakeInline(yaclib::StopTag{}), [] { return 1; }), c);
+        break;
       case kMakeTask:
         Extend(yaclib::MakeTask<int, TErr>(1), c);
+        break;
+      case kScheduleStopped:
+        Extend(yaclib::Schedule<TErr>(yaclib::MakeInline(yaclib::StopTag{}), [] { return 1; }), c);
         break;
       default:
         Extend(yaclib::Schedule<TErr>(c.ex[se], [] { return 1; }), c);
@@ -812,7 +827,7 @@ std::string Compare(const Params& p, int clause) {
         Outcome twin;
         Params q = p;
         q.start = kToFuture;
-        RunReal(q, twin, p.source == kMakeTask ? kReadyValue : kRun);
+        RunReal(q, twin, p.source == kMakeTask ? kReadyValue : p.source == kScheduleStopped ? kRunStopped : kRun);
         if (twin.fstate != o.fstate || twin.fval != o.fval || twin.fcode != o.fcode) {
           std::snprintf(buf, sizeof buf, "lazy pipeline and its eager twin differ: lazy=(%d,%d,%d) eager=(%d,%d,%d)", o.fstate,
                         o.fval, o.fcode, twin.fstate, twin.fval, twin.fcode);
@@ -856,8 +871,8 @@ class PipeFamily final : public vf::Family {
     return _prop;
   }
   const char* Rule() const final {
-    return "program = source (ready value/error/exception, Run(e), contract fulfilled after building, MakeTask, "
-           "Schedule(e)) x <= 7 steps (ThenInline | Then(e) | Then() inherited; callback taking value | Result | error "
+    return "program = source (ready value/error/exception, Run(e), Run(stopped Inline), contract fulfilled after building, "
+           "MakeTask, Schedule(e), Schedule(stopped Inline)) x <= 7 steps (ThenInline | Then(e) | Then() inherited; callback taking value | Result | error "
            "type | exception_ptr; output int|void; returning plain | Result(value/error/exception) | throwing | Future "
            "(ready or from Run(e')) | SharedFuture | Task) x two instrumented executors (queued or immediate, refusing "
            "from their k-th Submit) x lazy start mode (ToFuture, ToFuture(e), Get, Detach, Detach(e), returned from a "
